@@ -463,9 +463,12 @@ def rule_is_unique_rule(ctx):
         def produce(index):
             if produced and produced[-1] == "END":
                 return AbsIter.STOP
-            options = ["a", "b", "unknown", "COMMA", "OTHER", "NUMBER", "END"] if len(produced) < max_tokens else ["END"]
+            # "b~": the name b with white space the 3.12 tokenizer folds into the NAME token (a no-break space after a comma)
+            options = ["a", "b", "b~", "unknown", "COMMA", "OTHER", "NUMBER", "END"] if len(produced) < max_tokens else ["END"]
             kind = ch.choose(("token", index), options)
             produced.append(kind)
+            if kind == "b~":
+                return (NAME, "\u00a0b", (1, index), (1, index + 2), "")
             if kind in ("a", "b", "unknown"):
                 return (NAME, kind, (1, index), (1, index + 1), "")
             if kind == "COMMA":
@@ -492,6 +495,7 @@ def rule_is_unique_rule(ctx):
         ok = True
         expect_name = True
         for kind in produced[:-1]:
+            kind = "b" if kind == "b~" else kind  # white space around a name is no part of it
             if expect_name:
                 if kind in ("a", "b") and kind not in names:
                     names.append(kind)
@@ -510,7 +514,7 @@ def rule_is_unique_rule(ctx):
             ok = bool(names) and not expect_name
         expected = ("fields", names) if ok else "raise InterfaceError"
         if not ok and outcome != "raise InterfaceError" and produced[:-1] and produced[-2] == "COMMA" and names and all(
-                kind in ("a", "b", "COMMA") for kind in produced[:-1]):
+                kind in ("a", "b", "b~", "COMMA") for kind in produced[:-1]):
             # a trailing comma after valid names: the statement only requires a rule "naming only declared fields"
             return (" ".join(produced), outcome, outcome)
         return (" ".join(produced), outcome, expected)
